@@ -64,6 +64,12 @@ CALLEES = {
                         "do j = 1, k", "  x = x + real(j)", "end do"]),
     "iarr": ("q, x", ["integer, dimension(1:4), intent(inout) :: q", "real, intent(inout) :: x",
                       "q(1) = q(2)", "x = 9.0"]),
+    "earlyret": ("y, p", ["real, intent(inout) :: y", "integer, intent(in) :: p",
+                          "if (p > 1) then", "  y = 0.0", "  return", "end if", "y = 1.0", "return"]),
+    "lastret": ("y, p", ["real, intent(inout) :: y", "integer, intent(in) :: p",
+                         "y = real(p)", "return"]),
+    "midret": ("y, p", ["real, intent(inout) :: y", "integer, intent(in) :: p",
+                        "y = 2.0", "if (p > 2) return", "y = y + 1.0"]),
     "condret": ("y, p", ["real, intent(inout) :: y", "integer, intent(in) :: p",
                          "if (p > 1) then", "  y = 0.0", "else", "  y = 1.0", "end if"]),
 }
@@ -108,6 +114,10 @@ CALLERS = [
     (["iarr"], ["call iarr(ia, a(ia(1)))"]),
     (["condret"], ["call condret(t, n)"]),
     (["addn", "clash"], ["call addn(t, n)", "call clash(t)", "call addn(u, m)"]),
+    (["earlyret"], ["call earlyret(t, n)", "u = u + t", "a(n) = u"]),
+    (["earlyret"], ["do i = 1, n", "  call earlyret(a(i), i)", "  b(i) = a(i) + 1.0", "end do"]),
+    (["lastret"], ["call lastret(t, n)", "u = t * 2.0"]),
+    (["midret"], ["call midret(t, n)", "u = t + 1.0", "kout = kout + 1"]),
 ]
 
 
